@@ -76,6 +76,13 @@ func gen(r *h.Rand, tier string, emit func([]string)) {
 					ops = append(ops, "drop "+m)
 				}
 				forget(m)
+			case x < 96:
+				// two writers racing on a new field of a measurement used for nothing else;
+				// the drop right after brings model and implementation back in step whoever won
+				t1 := h.Pick(r, []string{"i:1", "f:3ff0000000000000", "b:1", "u:7", "s:3x2"})
+				t2 := h.Pick(r, []string{"i:2", "f:4000000000000000", "b:0", "u:9", "s:4x1"})
+				fld := h.Pick(r, []string{"x", "y"})
+				ops = append(ops, fmt.Sprintf("race rc|-|%s:%s|%d rc|h=a|%s:%s|%d", fld, t1, 900000+i, fld, t2, 900100+i), "drop rc")
 			default:
 				ops = append(ops, h.Pick(r, []string{"f", "r", "snap", "logsize", "logsize"}))
 			}
